@@ -10,7 +10,7 @@ import os
 from concurrent.futures import ProcessPoolExecutor
 from dataclasses import dataclass, field
 from pathlib import Path
-from typing import Dict, List, Optional
+from typing import Dict, List, Optional, Tuple
 
 from .report import AnalysisError
 
@@ -75,7 +75,7 @@ def _run_one(args):
 
 
 def run_selftest(prop: str, mod, repo: Path, base_ctx) -> dict:
-    mutants: List[Mutant] = mod.mutants(base_ctx.model)
+    mutants: List[Mutant] = (mod.mutants(base_ctx.model) if hasattr(mod, "mutants") else []) + seeded_mutants(prop, base_ctx.model)
     for m in mutants:
         for rel, text in m.overlay.items():
             if rel.endswith(".py"):
@@ -100,3 +100,90 @@ def run_selftest(prop: str, mod, repo: Path, base_ctx) -> dict:
         "undecided": errors,  # the variant left the supported subset: the check says 'cannot decide' (exit 2), not 'fine'
         "by_rule": {r[0]: r[3] for r in results[:40]},
     }
+
+
+# ------------------------------------------------------------------------------------------------ seeded changes as self-test
+def apply_unified_diff(read, diff_text: str) -> Optional[Dict[str, str]]:
+    """Apply a `git diff` to file contents obtained through read(relpath). Returns {relpath: new text} or None if a hunk
+    does not apply (the tree has moved on)."""
+    import re
+
+    files: Dict[str, List[str]] = {}
+    cur: Optional[str] = None
+    hunks: Dict[str, List[Tuple]] = {}
+    lines = diff_text.splitlines(keepends=True)
+    i = 0
+    while i < len(lines):
+        ln = lines[i]
+        if ln.startswith("+++ "):
+            path = ln[4:].strip()
+            cur = path[2:] if path.startswith("b/") else path
+            hunks.setdefault(cur, [])
+        elif ln.startswith("@@") and cur is not None:
+            m = re.match(r"@@ -(\d+)(?:,(\d+))? \+(\d+)(?:,(\d+))? @@", ln)
+            if not m:
+                return None
+            old_start = int(m.group(1))
+            body = []
+            i += 1
+            while i < len(lines) and not lines[i].startswith(("@@", "diff --git", "--- ", "+++ ")):
+                if lines[i].startswith("\\"):
+                    i += 1
+                    continue
+                body.append(lines[i])
+                i += 1
+            hunks[cur].append((old_start, body))
+            continue
+        i += 1
+    out: Dict[str, str] = {}
+    for path, hs in hunks.items():
+        if path == "/dev/null":
+            continue
+        try:
+            src = read(path).splitlines(keepends=True)
+        except OSError:
+            src = []
+        offset = 0
+        for old_start, body in hs:
+            old = [b[1:] for b in body if b[:1] in (" ", "-")]
+            new = [b[1:] for b in body if b[:1] in (" ", "+")]
+            pos = old_start - 1 + offset
+            found = None
+            for delta in sorted(range(-40, 41), key=abs):
+                p = pos + delta
+                if 0 <= p <= len(src) - len(old) and [x.rstrip("\n") for x in src[p:p + len(old)]] == [x.rstrip("\n") for x in old]:
+                    found = p
+                    break
+            if found is None:
+                return None
+            src[found:found + len(old)] = new
+            offset += len(new) - len(old) + (found - pos)
+        out[path] = "".join(src)
+    return out
+
+
+def seeded_mutants(prop: str, model) -> List[Mutant]:
+    """The confirmed seeded changes (independent sub-agents) whose meta.json names this property, as overlay variants."""
+    import json
+
+    out: List[Mutant] = []
+    base = Path(__file__).resolve().parent.parent / "seeded"
+    if not base.is_dir():
+        return out
+    for d in sorted(base.iterdir()):
+        meta = d / "meta.json"
+        patch = d / "patch.diff"
+        if not (meta.exists() and patch.exists()):
+            continue
+        try:
+            m = json.loads(meta.read_text())
+        except ValueError:
+            continue
+        targets = set(m.get("caught_by", [])) | {m.get("breaks_property")}
+        if prop not in targets:
+            continue
+        ov = apply_unified_diff(model.read, patch.read_text(encoding="utf-8"))
+        if ov is None:
+            continue  # does not apply to this tree any more
+        out.append(Mutant(f"seeded:{d.name}", {k: v for k, v in ov.items() if k.startswith("src/")}, note=m.get("needs_to_manifest", "")))
+    return out
